@@ -38,6 +38,8 @@ func init() {
 				Run: ruleC12f},
 			{ID: "C12.g", Template: "T-LOCK", Required: true, Run: ruleGlobalsUnderInstanceLocks,
 				Doc: "Package-level variables written on the mutator or request path (plain stores; sync/atomic calls are not stores) are written under a package-level lock. A lock that is a field protects one Container or WebService; Route() on two different services holds two different locks, so a shared counter written under 'the service lock' is a data race."},
+			{ID: "C12.h", Template: "T-SIBLING", Required: true, Run: ruleC11c,
+				Doc: "'No panic' while services are added and removed: Remove rebuilds the ServeMux from the remaining services, so the duplicate-pattern guard must recognise every registered pattern (same obligations as C11.c); otherwise the rebuild registers a pattern twice, http.ServeMux panics inside Remove and services nobody asked to change disappear."},
 		},
 	})
 }
